@@ -23,8 +23,13 @@ def cut_set(n, hlen, quick):
 
 
 def fault_script(rtype, fault, second=None):
+    if rtype == 'worker-in-ctx':
+        # the bystander lives in the context the faulty request addresses (its requests are handled by the context's process)
+        by = {'op': 'create', 'var': 'by', 'kind': 'PR', 'target': None, 'ctor': {'context': '<c11-ctx>'}, 'tag': 'bystander'}
+    else:
+        by = {'op': 'create', 'var': 'by', 'kind': 'PR', 'target': 'slow_echo', 'kwargs': {'delay': 0.25}, 'tag': 'bystander'}
     sc = [{'op': 'heal_server'},
-          {'op': 'create', 'var': 'by', 'kind': 'PR', 'target': 'slow_echo', 'kwargs': {'delay': 0.25}, 'tag': 'bystander'},
+          by,
           {'op': 'call', 'var': 'by', 'method': 'enqueue', 'args': ['b1']},
           {'op': 'c11_fault', 'rtype': rtype, 'fault': fault, 'tag': 'fault'}]
     if second:
@@ -35,8 +40,13 @@ def fault_script(rtype, fault, second=None):
            {'op': 'call', 'var': 'by', 'method': 'is_alive', 'tag': 'by-alive'},
            {'op': 'call', 'var': 'by', 'method': 'next_result', 'kwargs': {'timeout': 6}, 'timeout': 8, 'tag': 'by-result', 'stop_on_hang': False},
            {'op': 'call', 'var': 'by', 'method': 'call', 'args': ['b2'], 'timeout': 8, 'tag': 'by-second', 'stop_on_hang': False},
-           {'op': 'call', 'var': 'by', 'method': 'wait', 'args': [5], 'tag': 'by-wait', 'stop_on_hang': False},
-           {'op': 'heal_server', 'tag': 'heal'}]
+           {'op': 'call', 'var': 'by', 'method': 'wait', 'args': [5], 'tag': 'by-wait', 'stop_on_hang': False}]
+    if rtype == 'worker-in-ctx':
+        # and the context still accepts new workers
+        sc += [{'op': 'create', 'var': 'again', 'kind': 'PR', 'target': None, 'ctor': {'context': '<c11-ctx>'}, 'tag': 'ctx-again', 'timeout': 10, 'stop_on_hang': False},
+               {'op': 'call', 'var': 'again', 'method': 'call', 'args': ['c'], 'timeout': 8, 'tag': 'ctx-again-result', 'stop_on_hang': False},
+               {'op': 'call', 'var': 'again', 'method': 'wait', 'args': [5], 'stop_on_hang': False}]
+    sc += [{'op': 'heal_server', 'tag': 'heal'}]
     return sc
 
 
@@ -110,6 +120,8 @@ def run(ctx):
             bad = ('bystander-stopped-working', t.get('by-second'))
         elif t.get('by-wait', {}).get('ret') is not True:
             bad = ('bystander-cannot-finish', t.get('by-wait'))
+        elif 'ctx-again' in t and (t['ctx-again'].get('ret') != 'created' or t.get('ctx-again-result', {}).get('ret') != ['c']):
+            bad = ('context-does-not-serve-new-workers', {'create': t.get('ctx-again'), 'result': t.get('ctx-again-result')})
         ctx.outcome('%s:%s:%s' % (meta['rtype'], meta['where'], bad[0] if bad else 'ok'))
         if bad:
             ctx.violation('STREAM/%s/%s/%s' % (meta['rtype'], meta['where'], bad[0]), meta, bad[1],
